@@ -157,18 +157,7 @@ class Worker:
 
 
 def build_uncompiled(pycells, names):
-    L = xl.lib()
-    comp = L.ModelCompiler()
-    late = {a: v for a, v in pycells.items() if not isinstance(v, (int, float)) and not (isinstance(v, str) and v != '')}
-    model = comp.read_and_parse_dict({a: (0 if a in late else v) for a, v in pycells.items()}, build_code=False)
-    for a, v in late.items():
-        model.set_cell_value(a, v)
-    if names:
-        comp.defined_names = {n: r.replace("'", '') for n, r in names}
-        comp.build_defined_names()
-        comp.link_cells_to_defined_names()
-        comp.build_ranges()
-    return model
+    return W.build_model(pycells, names, build_code=False)
 
 
 BUG_MODELS = {}
